@@ -262,27 +262,42 @@ func shortType(p *core.Prog, t types.Type) string {
 func c12Assert(p *core.Prog, ta *ssa.TypeAssert, table map[int64]string) (bool, string) {
 	x := p.X(ta.X)
 	asserted := shortType(p, ta.AssertedType)
-	// (a) elements of resolveOne(ctx, name, "T")#0
-	var typName string
+	// (a) elements of resolveOne(ctx, name, "T")#0; T may be one of several constants
+	var typNames []string
+	isLookup := false
 	x.Walk(func(e *core.Expr) bool {
-		if typName != "" {
+		if isLookup {
 			return false
 		}
-		if e.Op == "call" && strings.HasSuffix(e.Name, ".resolveOne") && len(e.Args) == 4 && e.Args[3].Op == "const" {
-			typName = strings.Trim(e.Args[3].Name, `"`)
+		if e.Op == "call" && strings.HasSuffix(e.Name, ".resolveOne") && len(e.Args) == 4 {
+			isLookup = true
+			for _, a := range e.Args[3].Alts() {
+				if a.Op != "const" {
+					typNames = nil
+					return false
+				}
+				typNames = append(typNames, strings.Trim(a.Name, `"`))
+			}
 			return false
 		}
 		return true
 	})
-	if typName != "" {
-		code, ok := rrTypeCode(p, typName)
-		if !ok {
-			return false, "unknown record type name " + typName
+	if isLookup && len(typNames) == 0 {
+		return false, "the record type asked for is not a constant"
+	}
+	if len(typNames) > 0 {
+		var why []string
+		for _, typName := range typNames {
+			code, ok := rrTypeCode(p, typName)
+			if !ok {
+				return false, "unknown record type name " + typName
+			}
+			if table[code] != asserted {
+				return false, fmt.Sprintf("records asked for as %q (type %d) carry %s, asserted %s", typName, code, table[code], asserted)
+			}
+			why = append(why, fmt.Sprintf("records asked for as %q (type %d) carry %s by the decoder's table", typName, code, asserted))
 		}
-		if table[code] == asserted {
-			return true, fmt.Sprintf("records asked for as %q (type %d) carry %s by the decoder's table", typName, code, asserted)
-		}
-		return false, fmt.Sprintf("records asked for as %q (type %d) carry %s, asserted %s", typName, code, table[code], asserted)
+		return true, strings.Join(why, "; ")
 	}
 	// (b) guarded by rr.Type == K on the same record
 	if x.Op == "field" && x.Name == "Data" {
